@@ -414,11 +414,15 @@ Definition hash_inj (e : henv) (k : kexpr) (cs : list ncall) : Prop :=
 
 (* the observation compared with the real code: per call hit / miss / raised, and the
    list of dict keys at the end *)
-Definition obs_of {R} (o : @outcome R) : nat :=
-  match o with Ok _ true => 1%nat | Ok _ false => 0%nat | RaisedTypeError => 2%nat end.
+Definition obs_of (o : @outcome nat) : nat * nat :=
+  match o with Ok r true => (1%nat, r) | Ok r false => (0%nat, r) | RaisedTypeError => (2%nat, 0%nat) end.
+(* per call: (0 miss | 1 hit | 2 raised TypeError, index of the call whose computation produced
+   the returned object); and the dict keys, in insertion order, at the end *)
 Definition cache_trace (e : henv) (k : kexpr) (fallback : bool) (cs : list ncall)
-  : list nat * list pyval :=
-  let '(os, d) := memo_run (nc_dkey e k) nc_use (nc_keyok k) fallback (fun c => tt) [] cs in
+  : list (nat * nat) * list pyval :=
+  let ics := combine (seq 0 (length cs)) cs in
+  let '(os, d) := memo_run (fun ic => nc_dkey e k (snd ic)) (fun ic => nc_use (snd ic))
+                           (fun ic => nc_keyok k (snd ic)) fallback (fun ic => fst ic) [] ics in
   (map obs_of os, map fst d).
 
 (* structural equality of Python values (NOT ==): used to compare observed keys with the model's *)
@@ -429,13 +433,15 @@ Fixpoint py_same (a b : pyval) {struct a} : bool :=
   | PStr s, PStr t => list_eqb Nat.eqb s t
   | PNone, PNone => true
   | PObj n, PObj m => Nat.eqb n m
-  | PTuple l, PTuple m | PList l, PList m | PFrozen l, PFrozen m | PDict l, PDict m =>
+  | PTuple l, PTuple m | PList l, PList m | PDict l, PDict m =>
       (fix go (l m : list pyval) : bool :=
          match l, m with
          | [], [] => true
          | x :: l', y :: m' => py_same x y && go l' m'
          | _, _ => false
          end) l m
+  | PFrozen l, PFrozen m =>        (* iteration order of a frozenset is not part of its value *)
+      Nat.eqb (length l) (length m) && forallb (fun x => existsb (fun y => py_same x y) m) l
   | _, _ => false
   end.
 #[export] Instance Eqb_pyval : Eqb pyval := py_same.
@@ -598,3 +604,25 @@ Definition normalize (r : rawcall) : option ncall :=
                           out sd (r_optimize r))
     | None => None
     end.
+
+(* a whole sequence of raw calls against one cache: the observation compared with the real code *)
+Fixpoint normalize_all (rs : list rawcall) : option (list ncall) :=
+  match rs with
+  | [] => Some []
+  | r :: rs' => match normalize r, normalize_all rs' with
+                | Some c, Some cs => Some (c :: cs)
+                | _, _ => None
+                end
+  end.
+Definition trace_raw (e : henv) (k : kexpr) (fallback : bool) (rs : list rawcall)
+  : option (list (nat * nat) * list pyval) :=
+  match normalize_all rs with
+  | Some cs => Some (cache_trace e k fallback cs)
+  | None => None
+  end.
+(* the normalised locals of one raw call, in the order inputs, output, size_dict, optimize *)
+Definition normalized_fields (r : rawcall) : option (list pyval) :=
+  match normalize r with
+  | Some c => Some (map (getf (nc_fields c)) ["inputs"; "output"; "size_dict"; "optimize"]%string)
+  | None => None
+  end.
